@@ -29,6 +29,16 @@ fn inside_ideal(p: Point, cx: i64, cy: i64, rx: i64, ry: i64, shrink: i64) -> bo
 
 pub fn run(suite: &str, a: &[&str]) -> Option<String> {
     Some(match suite {
+        // ties the model's private copy of Ellipse::contains (rr_ellipse_contains) to the real Ellipse
+        "rr_ellipse_pt" => {
+            let e = Ellipse::new(crate::util::pt(a[0], a[1]), Size::new(crate::util::u(a[2]), crate::util::u(a[3])));
+            crate::util::sb(e.contains(crate::util::pt(a[4], a[5]))).to_string()
+        }
+        "rr_ellipse_map" => {
+            let rect = crate::util::rc(a[0], a[1], a[2], a[3]);
+            let e = Ellipse::new(rect.top_left, rect.size);
+            super::c05_rrect::bitmap(window(&rect, 2), |p| e.contains(p))
+        }
         // confine_radii: radii on each side sum to <= the side; fitting radii unchanged; idempotent; never grows
         "p_rr_confine" => {
             let r = rr(a);
